@@ -141,9 +141,19 @@ class _RefreshFlow(Flow):
         params = {a.arg for a in self.f.params}
         for _ in range(3):
             for n in body_nodes(self.f):
+                pairs = []
                 if isinstance(n, ast.Assign) and len(n.targets) == 1 and isinstance(n.targets[0], ast.Name):
+                    pairs = [(n.targets[0].id, n.value)]
+                elif isinstance(n, ast.Assign) and len(n.targets) == 1 and isinstance(n.targets[0], (ast.Tuple, ast.List)) \
+                        and all(isinstance(e, ast.Name) for e in n.targets[0].elts):
+                    # a, b = self._x, self._y   (element-wise when the right-hand side is a display of the same length)
+                    if isinstance(n.value, (ast.Tuple, ast.List)) and len(n.value.elts) == len(n.targets[0].elts):
+                        pairs = [(t.id, v) for t, v in zip(n.targets[0].elts, n.value.elts)]
+                    else:
+                        pairs = [(t.id, n.value) for t in n.targets[0].elts]
+                for tname, val in pairs:
                     ok = True
-                    for x in ast.walk(n.value):
+                    for x in ast.walk(val):
                         a = self_attr(x, self.me)
                         if a is not None and a not in self.bases:
                             ok = False
@@ -151,7 +161,7 @@ class _RefreshFlow(Flow):
                                 and x.id not in ("abs", "isinstance", "float", "int", "min", "max", "len"):
                             ok = False
                     if ok:
-                        bl.add(n.targets[0].id)
+                        bl.add(tname)
         self._bl = bl
         return bl
 
@@ -577,4 +587,192 @@ def check_helper_guards(ctx: CheckContext, r: Resolver, ci: ClassInfo, groups, r
         fl = _OrderFlow(f, me, sup, tar, groups, ctx, rule, ci)
         fl.run(f.node, ('?', frozenset()))
         n += len(fl.sites)
+    return n
+
+
+# =========================================================================================
+# DERIVED-SEQ : inside one method, a derived field is not computed BEFORE the field it is derived from is rewritten
+# =========================================================================================
+def _direct_dependencies(ci: ClassInfo, recompute: FuncInfo) -> Dict[str, Set[str]]:
+    """derived field -> fields its defining expression literally reads, inside the recompute cone (no closure)"""
+    direct: Dict[str, Set[str]] = {}
+    for g in transitive_self_callees(ci, recompute):
+        me = self_name(g)
+        if me is None:
+            continue
+        for a, val, st in _assigns(g, me):
+            direct.setdefault(a, set()).update(set(fields_read(val, me)) - {a})
+    return direct
+
+
+class _SeqFlow(Flow):
+    """state = (fresh, stale): sets of pairs (D, X).  fresh: D was last computed on this path from the CURRENT value of X;
+    stale: D was computed from a value of X that has been overwritten since.  Locals are tracked as pseudo-fields '$name'."""
+
+    def __init__(self, ci: ClassInfo, f: FuncInfo, me: str, depth: int = 0):
+        self.ci, self.f, self.me, self.depth = ci, f, me, depth
+        self.exits: List[tuple] = []
+        self.unknown = False
+
+    def copy(self, s):
+        return s
+
+    def join(self, a, b):
+        # a may-analysis: "on SOME path D was computed from the current X" / "... from an X that was overwritten since"
+        return (a[0] | b[0], a[1] | b[1])
+
+    def _srcs(self, e: ast.AST) -> Set[str]:
+        out = set(fields_read(e, self.me))
+        for n in ast.walk(e):
+            if isinstance(n, ast.Name) and isinstance(n.ctx, ast.Load) and n.id != self.me:
+                out.add("$" + n.id)
+        return out
+
+    def _write(self, s, d: str, reads: Set[str], aug: bool = False):
+        fresh, stale = set(s[0]), set(s[1])
+        inherited = {(d, x) for (l, x) in stale if l in reads and l.startswith("$")}
+        if not aug:
+            stale = {(a, x) for (a, x) in stale if a != d}
+            fresh = {(a, x) for (a, x) in fresh if a != d}
+        fresh |= {(d, x) for x in reads if x != d}
+        # everything computed from the old value of d is now out of date
+        moved = {(a, x) for (a, x) in fresh if x == d and a != d}
+        fresh -= moved
+        stale |= moved | inherited
+        return (frozenset(fresh), frozenset(stale))
+
+    def _call(self, s, callee: FuncInfo):
+        hm = self_name(callee)
+        if hm is None:
+            return s
+        if self.depth >= 5 or callee is self.f:
+            self.unknown = True
+            return (frozenset(), frozenset())
+        sub = _SeqFlow(self.ci, callee, hm, self.depth + 1)
+        # the callee's own locals are not ours
+        sub.run(callee.node, (frozenset(p_ for p_ in s[0] if not p_[0].startswith("$") and not p_[1].startswith("$")),
+                              frozenset(p_ for p_ in s[1] if not p_[0].startswith("$") and not p_[1].startswith("$"))))
+        self.unknown = self.unknown or sub.unknown
+        outs = [e for k, e in sub.exits if k != "raise"]
+        if not outs:
+            return None
+        res = outs[0]
+        for o in outs[1:]:
+            res = self.join(res, o)
+        keep_f = {p_ for p_ in s[0] if p_[0].startswith("$") and not p_[1].startswith("$")}
+        keep_s = {p_ for p_ in s[1] if p_[0].startswith("$")}
+        # a local computed from a field the callee rewrote is stale now
+        written = {a for g in transitive_self_callees(self.ci, callee) for a, _, _ in _assigns(g, self_name(g) or "self")}
+        moved = {p_ for p_ in keep_f if p_[1] in written}
+        return (frozenset({p_ for p_ in res[0] if not p_[0].startswith("$") and not p_[1].startswith("$")} | (keep_f - moved)),
+                frozenset({p_ for p_ in res[1] if not p_[0].startswith("$") and not p_[1].startswith("$")} | keep_s | moved))
+
+    def _effects(self, node: ast.AST, s):
+        for n in ast.walk(node):
+            if s is None:
+                return None
+            if isinstance(n, ast.Call) and isinstance(n.func, ast.Attribute) and isinstance(n.func.value, ast.Name) and n.func.value.id == self.me:
+                callee = self.ci.methods.get(n.func.attr)
+                if callee is not None and not callee.is_property:
+                    s = self._call(s, callee)
+            elif isinstance(n, ast.Call) and any(isinstance(a, ast.Name) and a.id == self.me for a in list(n.args) + [k.value for k in n.keywords]):
+                self.unknown = True              # self handed to code outside the class
+                s = (frozenset(), frozenset())
+        return s
+
+    def transfer(self, st, s):
+        if isinstance(st, (ast.FunctionDef, ast.AsyncFunctionDef, ast.ClassDef)):
+            return s
+        val = getattr(st, "value", None)
+        s = self._effects(val if isinstance(st, (ast.Assign, ast.AugAssign, ast.AnnAssign)) and val is not None else st, s)
+        if s is None:
+            return None
+        pairs: List[Tuple[ast.AST, ast.AST]] = []
+        if isinstance(st, ast.Assign):
+            for t in st.targets:
+                if isinstance(t, (ast.Tuple, ast.List)) and isinstance(st.value, (ast.Tuple, ast.List)) and len(t.elts) == len(st.value.elts):
+                    pairs += list(zip(t.elts, st.value.elts))
+                elif isinstance(t, (ast.Tuple, ast.List)):
+                    pairs += [(e, st.value) for e in t.elts]
+                else:
+                    pairs.append((t, st.value))
+        elif isinstance(st, ast.AnnAssign) and st.value is not None:
+            pairs.append((st.target, st.value))
+        elif isinstance(st, ast.AugAssign):
+            pairs.append((st.target, st.value))
+        # all right-hand sides are evaluated before any target is stored
+        reads = [(t, self._srcs(v)) for t, v in pairs]
+        for t, rd in reads:
+            a = self_attr(t, self.me)
+            if a is not None:
+                setter = self.ci.setters.get(a)
+                if setter is not None:
+                    s = self._call(s, setter)
+                    if s is None:
+                        return None
+                else:
+                    s = self._write(s, a, rd, aug=isinstance(st, ast.AugAssign))
+            elif isinstance(t, ast.Name):
+                s = self._write(s, "$" + t.id, rd, aug=isinstance(st, ast.AugAssign))
+        return s
+
+    def branch(self, test, s):
+        s = self._effects(test, s)
+        return s, s
+
+    def bind_loop_target(self, node, s):
+        s = self._effects(node.iter, s)
+        if s is None:
+            return None
+        for t in ast.walk(node.target):
+            if isinstance(t, ast.Name):
+                s = self._write(s, "$" + t.id, self._srcs(node.iter))
+        return s
+
+    def on_exit(self, kind, node, s):
+        self.exits.append((kind, s))
+
+
+def check_stale_order(ctx: CheckContext, r: Resolver, ci: ClassInfo, rule: str = "DERIVED-SEQ") -> int:
+    ctx.rule(rule, "inside one method, a derived field (one the recompute method computes from field X) is never computed from X and left as it is while X is "
+                   "rewritten afterwards: at the method's exit the derived field would describe the OLD value of X (order of updates)")
+    recompute = find_recompute(ci)
+    direct = _direct_dependencies(ci, recompute)
+    n = 0
+    for nm, f in list(ci.methods.items()) + [(k + ".setter", v) for k, v in ci.setters.items()]:
+        me = self_name(f)
+        if me is None or isinstance(f.node, ast.Lambda):
+            continue
+        # only methods that (transitively) compute some derived field from a field they also (transitively) write
+        cone = transitive_self_callees(ci, f)
+        writes = {a for g in cone for a, _, _ in _assigns(g, self_name(g) or "self")}
+        cands = {(d, x) for d in writes for x in direct.get(d, ()) if x in writes}
+        if not cands:
+            continue
+        fl = _SeqFlow(ci, f, me)
+        fl.run(f.node, (frozenset(), frozenset()))
+        bad: Set[Tuple[str, str]] = set()
+        for kind, s in fl.exits:
+            if kind == "raise":
+                continue
+            bad |= {(d, x) for (d, x) in s[1] if (d, x) in cands}
+        for d, x in sorted(cands):
+            n += 1
+            ok = (d, x) not in bad
+            ctx.ob(rule, f"{f.qualname}:{d}<-{x}", f"{f.module.relpath}:{f.node.lineno}", ok,
+                   "" if ok else f"{ci.name}.{nm} computes {d} from {x} and rewrites {x} afterwards without computing {d} again on some path: at exit {d} "
+                                 f"describes the old {x} (the recompute method {recompute.name} derives {d} from {x})")
+    return n
+
+
+def check_stale_order_all(ctx: CheckContext, p, r: Resolver, rule: str = "DERIVED-SEQ") -> int:
+    """DERIVED-SEQ over every class that has a recompute method (a method __init__ calls which assigns several fields)"""
+    n = 0
+    for m in p.modules.values():
+        for ci in m.classes.values():
+            try:
+                find_recompute(ci)
+            except AnalysisError:
+                continue
+            n += check_stale_order(ctx, r, ci, rule)
     return n
